@@ -143,7 +143,10 @@ func c06new() *c06world {
 	for _, n := range []string{"s1", "s2"} {
 		w.srcs = append(w.srcs, &c06src{name: n, ctx: w.cx, content: map[peer.ID]c06entry{}})
 	}
-	w.pc = &ProviderCache{sources: []ProviderSource{w.srcs[0], w.srcs[1]}, ttl: c06ttl(), write: make(map[peer.ID]*cacheInfo), writeLock: make(chan struct{}, 1)}
+	// through the public constructor (no preload, no automatic refresh: the harness drives both)
+	pc, err := New(WithSource(w.srcs[0], w.srcs[1]), WithTTL(c06ttl()), WithRefreshInterval(0), WithPreload(false))
+	verif_Assume(err == nil && pc != nil)
+	w.pc = pc
 	verif_SetClock(0)
 	return w
 }
